@@ -460,6 +460,16 @@ func (n *Normalizer) term(t Term, e *env) Term {
 		body := n.block(x.Body, e2)
 		return eta(&Lam{node: x.node, Params: x.Params, Body: &Block{Ret: body, HasRet: true}, Lit: x.Lit})
 	case *App:
+		// make([]T, 0) / make([]T, 0, cap) is the empty list: capacity is not observable in a result
+		if b, ok := x.Fun.(*Builtin); ok && b.Name == "make" && (len(x.Args) == 2 || len(x.Args) == 3) {
+			if tl, ok := x.Args[0].(*TypeLit); ok {
+				if _, isSlice := tl.Type.Underlying().(*types.Slice); isSlice {
+					if lit, ok := x.Args[1].(*Lit); ok && lit.Val == "0" {
+						return &Zero{x.node, tl.Type}
+					}
+				}
+			}
+		}
 		return n.apply(x, n.term(x.Fun, e), n.terms(x.Args, e))
 	case *If:
 		return &If{node: x.node, Kind: x.Kind, Cond: n.term(x.Cond, e), Then: wrap(n.block(x.Then, e)), Else: wrapNil(x.Else, n, e)}
@@ -628,6 +638,16 @@ func (n *Normalizer) resimp(t Term) Term {
 
 // Subst replaces locals (by object) and/or parameters (by index) in a normal-form term.
 func Subst(t Term, locals map[*types.Var]Term, params []Term) Term {
+	return rewrite(t, locals, params, nil)
+}
+
+// Rewrite rebuilds a normal-form term bottom-up-free: hook is asked first at every node (pre-order); when it
+// answers true its result replaces the node (and is not descended into).
+func Rewrite(t Term, hook func(Term) (Term, bool)) Term {
+	return rewrite(t, nil, nil, hook)
+}
+
+func rewrite(t Term, locals map[*types.Var]Term, params []Term, hook func(Term) (Term, bool)) Term {
 	var s func(Term) Term
 	ss := func(ts []Term) []Term {
 		res := make([]Term, len(ts))
@@ -646,6 +666,11 @@ func Subst(t Term, locals map[*types.Var]Term, params []Term) Term {
 		return &Block{Ret: s(b.Ret), HasRet: b.HasRet}
 	}
 	s = func(t Term) Term {
+		if hook != nil && t != nil {
+			if r, ok := hook(t); ok {
+				return r
+			}
+		}
 		switch x := t.(type) {
 		case nil:
 			return nil
